@@ -288,6 +288,10 @@ func main() {
 			c := &cfg{V: mc.Pick(r, 6, 8), N: mc.Pick(r, 6, 8), SetLen: mc.Pick(r, 3, 3),
 				Roots: [][]int{nil, {100, 101}, {102, 100, 101}}}
 			res := makeBFS(c, &cnt).Run(r)
+			// a deeper heap (three full levels) without Set, which dominates the alphabet
+			deep := &cfg{V: mc.Pick(r, 8, 9), N: mc.Pick(r, 8, 9), SetLen: 0, Roots: [][]int{nil}}
+			res2 := makeBFS(deep, &cnt).Run(r)
+			r.Bound("deeper_configuration", fmt.Sprintf("%d distinct values, up to %d elements, no Set: %d states", deep.V, deep.N, res2.States))
 			r.Bound("distinct_values", c.V)
 			r.Bound("max_len", c.N)
 			r.Bound("set_args", fmt.Sprintf("all sequences of distinct values up to length %d", c.SetLen))
